@@ -2,3 +2,6 @@
 import WS.Base.Bytes
 import WS.Gen.Tables
 import WS.Props.C06
+import WS.Props.C09
+import WS.Props.C10
+import WS.Props.C11
